@@ -78,8 +78,15 @@ func (r Set[V]) SubsetOf(other Set[V]) bool {
 	return r.Iterator().ForAll(other.Contains)
 }
 
+func (r Set[V]) empty() SetMinimal[V] {
+	if r.getEmpty == nil {
+		return UnsafeGoSet[V]{}
+	}
+	return r.getEmpty()
+}
+
 func (r Set[V]) Diff(other Set[V]) Set[V] {
-	ret := r.getEmpty()
+	ret := r.empty()
 
 	itr := r.Iterator()
 	for itr.HasNext() {
@@ -92,7 +99,7 @@ func (r Set[V]) Diff(other Set[V]) Set[V] {
 	return MakeSet(r.getEmpty, ret)
 }
 func (r Set[V]) Intersect(other Set[V]) Set[V] {
-	ret := r.getEmpty()
+	ret := r.empty()
 
 	itr := r.Iterator()
 	for itr.HasNext() {
